@@ -390,7 +390,9 @@ func genC04Message(rt *rapid.T, st *c04State) (topic string, data []byte, desc s
 			if nItems > 0 {
 				i := pick()
 				cut := rapid.IntRange(0, 47).Draw(rt, l+"cut")
-				setBlob(i, shares.Shares[i].Share[:cut], keysMsg.Keys[i].Key[:cut])
+				// an earlier mutation may have emptied the blob already
+				trunc := func(b []byte) []byte { return b[:min(cut, len(b))] }
+				setBlob(i, trunc(shares.Shares[i].Share), trunc(keysMsg.Keys[i].Key))
 			}
 		case "blob-infinity":
 			if nItems > 0 {
@@ -557,7 +559,7 @@ func c04StoreMismatch(node *simNode, st *c04State, topic string, data []byte) st
 // interleaved with messages made from the key material of any attempt.
 func TestC04_History(t *testing.T) {
 	rec := recorder("C04")
-	rec.AddRule("history variant: one long-lived core keyper node; a generated history interleaves receiver state changes (the keyper set's key generation is restarted: new eon row, then failure or success with the other of two deterministic key sets; a key gets stored) with key-shares / keys messages built from either key set; the reference clauses are evaluated against the state at the moment of each message; non-trivial = a message validated after at least one restart")
+	rec.AddRule("history variant: one long-lived core keyper node; a generated history interleaves receiver state changes (the keyper set's key generation is restarted: new eon row, then failure or success with the other of two deterministic key sets; a key gets stored; in a third of the histories the keyper set itself arrives in the database only after the first messages) with key-shares / keys messages built from either key set; the reference clauses are evaluated against the state at the moment of each message; non-trivial = a message validated after at least one restart or after the late arrival of the set")
 	ctx := context.Background()
 	runRapid(t, N(150, 3000), func(rt *rapid.T) {
 		maxKeys := uint64(4)
@@ -581,7 +583,17 @@ func TestC04_History(t *testing.T) {
 				rt.Fatalf("setup: %v", err)
 			}
 		}
-		must(q.InsertBatchConfig(ctx, corekeyper.InsertBatchConfigParams{KeyperConfigIndex: 1, Height: 1, Keypers: addrStrings(st.Members), Threshold: int32(th), Started: true, ActivationBlockNumber: 100}))
+		// one history in three: the keyper set named by the messages is not in the receiver's database at first
+		// (a peer is ahead of our sync); it arrives later, with us as a member
+		synced := rapid.IntRange(0, 2).Draw(rt, "setSyncedAtStart") > 0
+		insertSet := func() {
+			must(q.InsertBatchConfig(ctx, corekeyper.InsertBatchConfigParams{KeyperConfigIndex: 1, Height: 1, Keypers: addrStrings(st.Members), Threshold: int32(th), Started: true, ActivationBlockNumber: 100}))
+		}
+		if synced {
+			insertSet()
+		} else {
+			st.SetKnown = false
+		}
 		eon := int64(10)
 		pending := false
 		startEon := func() {
@@ -597,8 +609,14 @@ func TestC04_History(t *testing.T) {
 			st.HasSuccess, pending = success, false
 		}
 		// first attempt
-		must(q.InsertEon(ctx, corekeyper.InsertEonParams{Eon: eon, Height: eon, ActivationBlockNumber: 100, KeyperConfigIndex: 1}))
-		finish(rapid.IntRange(0, 3).Draw(rt, "firstOK") > 0)
+		firstAttempt := func() {
+			must(q.InsertEon(ctx, corekeyper.InsertEonParams{Eon: eon, Height: eon, ActivationBlockNumber: 100, KeyperConfigIndex: 1}))
+			finish(rapid.IntRange(0, 3).Draw(rt, "firstOK") > 0)
+		}
+		if synced {
+			firstAttempt()
+		}
+		lateSync := !synced
 		var desc []string
 		restarts := 0
 		nt := false
@@ -606,6 +624,11 @@ func TestC04_History(t *testing.T) {
 		for i := 0; i < steps; i++ {
 			l := fmt.Sprintf("h%d", i)
 			switch act := rapid.SampledFrom([]string{"msg", "msg", "msg", "restart", "finish"}).Draw(rt, l); {
+			case !synced && act != "msg":
+				insertSet()
+				st.SetKnown, synced = true, true
+				firstAttempt()
+				desc = append(desc, fmt.Sprintf("keyper-set-synced(e%d,success=%v)", eon, st.HasSuccess))
 			case act == "restart" && !pending:
 				startEon()
 				restarts++
@@ -647,7 +670,7 @@ func TestC04_History(t *testing.T) {
 				if len(bad) > 0 && v.Accepted() {
 					fatalf(rt, "invalid-message-accepted", "message violating %v in the current state was accepted\nhistory: %s", bad, hist)
 				}
-				if restarts > 0 {
+				if restarts > 0 || (lateSync && synced) {
 					nt = true
 				}
 				if len(bad) == 0 {
@@ -665,6 +688,10 @@ func TestC04_History(t *testing.T) {
 		if !checkEngine(t, rec, node.DB) {
 			rt.Fatalf("inconclusive")
 		}
-		rec.Case(fmt.Sprintf("hist n=%d t=%d | %s", n, th, strings.Join(desc, " ; ")), nt, "history", fmt.Sprintf("restarts:%d", min(restarts, 3)))
+		labelsH := []string{"history", fmt.Sprintf("restarts:%d", min(restarts, 3))}
+		if lateSync {
+			labelsH = append(labelsH, "history:keyper-set-arrives-after-the-first-messages")
+		}
+		rec.Case(fmt.Sprintf("hist n=%d t=%d | %s", n, th, strings.Join(desc, " ; ")), nt, labelsH...)
 	})
 }
